@@ -374,9 +374,11 @@ func c02UploadOK(c *Ctx, m *Module) {
 	}
 	// the flag: unique phi/bool fact at the upload write
 	var flag ssa.Value
+	var flagTest *ssa.BasicBlock
 	if b := uploadWrite.Block(); len(b.Preds) == 1 {
 		if ifi, ok := b.Preds[0].Instrs[len(b.Preds[0].Instrs)-1].(*ssa.If); ok && b.Preds[0].Succs[0] == b {
 			flag = ifi.Cond // the immediate guard of the upload write
+			flagTest = b.Preds[0]
 		}
 	}
 	r.Check("C02.uploadOK", "createReport/upload write is gated by a flag", m.Pos(uploadWrite.Pos()), flag != nil, "exclusiveWrite(<week>.json) must lie under the uploadOK flag")
@@ -404,7 +406,15 @@ func c02UploadOK(c *Ctx, m *Module) {
 		bOr{[]BExpr{bZero{"asof"}, mkOrd("asof", "<", "start")}},
 		bNot{bAnd{[]BExpr{mkOrd("X", ">", "SampleRate"), mkOrd("SampleRate", ">", "0")}}},
 	}}
-	ok, why, nw := equivalent(got, want)
+	// compared where the flag is tested: whatever is already known there (some count file had
+	// counters, say) is not part of the flag
+	assume := fb.reach(flagTest)
+	fb.undec = nil // a loop on the way to the test says nothing about the flag's value
+	got = fb.formula(flag)
+	ok, why, nw := equivalent(bAnd{[]BExpr{assume, got}}, bAnd{[]BExpr{assume, want}})
+	if unsat, _, _ := equivalent(assume, bConst(false)); unsat {
+		ok, why = false, "the path condition of the flag's test could not be built (it is unsatisfiable as computed)"
+	}
 	r.Check("C02.uploadOK", "createReport/truth table of the upload flag", m.Pos(uploadWrite.Pos()), ok && len(fb.undec) == 0,
 		fmt.Sprintf("uploadOK must equal mode==on ∧ ¬tooOld ∧ (asof zero ∨ asof < start) ∧ ¬(X > SampleRate ∧ SampleRate > 0) in all %d worlds; %s %v", nw, why, fb.undec))
 	r.Analysed["uploadOK_worlds"] = nw
@@ -413,7 +423,7 @@ func c02UploadOK(c *Ctx, m *Module) {
 	for _, cs := range callsIn(fn, "(*internal/upload.uploader).tooOld") {
 		a := argsOf(cs)
 		n1, _ := c02Namer(strip(a[2]))
-		r.Check("C02.uploadOK", "createReport/tooOld arguments", m.Pos(cs.Pos()), a[1] == fn.Params[2] && n1 == "startTime",
+		r.Check("C02.uploadOK", "createReport/tooOld arguments", m.Pos(cs.Pos()), (a[1] == fn.Params[2] || describe(a[1]) == describe(fn.Params[2])) && n1 == "startTime",
 			"tooOld must be asked about this report's week and the run's start time; got "+describe(a[1])+", "+describe(a[2]))
 	}
 	// tooOld's own table: true iff parse ok ∧ start - t > distantPast
@@ -482,8 +492,8 @@ func c02UploadOK(c *Ctx, m *Module) {
 		}
 		under := false
 		for _, f := range ex.facts {
-			if f.Cond == flag && f.Pol {
-				under = true
+			if (f.Cond == flag || (describe(f.Cond) == describe(flag) && !strings.Contains(describe(flag), "?"))) && f.Pol {
+				under = true // the flag itself, or the same test of the same values evaluated again
 			}
 		}
 		sameName := describe(ex.vals[0]) == describeArg(uploadWrite, 0)
